@@ -149,9 +149,10 @@ def _calculate_impedances(
     if indices.size > 0:
         try:
             Z[indices] = func(f[indices])
-        except OverflowError:
+        except (OverflowError, ZeroDivisionError):
             # Plain Python floats (e.g., parameter values raised to large
-            # powers) raise instead of returning inf like NumPy arrays do.
+            # powers or divided by zero) raise instead of returning inf like
+            # NumPy arrays do.
             raise InfiniteImpedance("Encountered an infinite impedance")
 
     if isinf(Z).any():
